@@ -140,11 +140,12 @@ def test_order():
     app = Application([('/', ep)],
                       middlewares=[MwA(), PlainMW(), NoneMW(), FalsyMW(), MwB()])
     assert trace_of(app) == ['A', 'F', 'B']
-    # app with no routes: no route carries the middlewares, nothing wraps
+    # app with no routes: the application's own middlewares still wrap it (since fix 30dc2da;
+    # before that nothing wrapped, because wrappers were collected from the bound routes only)
     app = Application([], middlewares=[MwA()])
     status, headers, body, environ = call_wsgi(app)
     assert status.startswith('404')
-    assert 'demo.trace' not in environ
+    assert environ.get('demo.trace') == ['A']
 
 
 def test_structure():
@@ -389,8 +390,11 @@ def test_invalid_wrappers():
         lambda: Application([('/', ep)], middlewares=[BadStrMW()]),
         'expected middleware.wsgi_wrapper to be callable or None, not %r'
         % (BadStrMW.wsgi_wrapper,))
-    # ... unreachable when no route carries it
-    Application([], middlewares=[BadStrMW()])
+    # ... also without any route (since fix 30dc2da the application's own middlewares always wrap)
+    expect_type_error(
+        lambda: Application([], middlewares=[BadStrMW()]),
+        'expected middleware.wsgi_wrapper to be callable or None, not %r'
+        % (BadStrMW.wsgi_wrapper,))
 
     class BadStrEH(ErrorHandler):
         wsgi_wrapper = 'nope'
